@@ -214,6 +214,7 @@ class Controller:
         self.fail_next = False
         self.nontrivial = False
         self.calls = 0
+        self.schedule = []
 
     def run_tasks(self, fn, tasks):
         ctx = self.ctx
@@ -245,6 +246,7 @@ class Controller:
             workers = [self.sched.choice(self.nworkers) for _ in range(n)]
             if n > 1 and (order != list(range(n)) or len(set(workers)) > 1):
                 self.nontrivial = True
+            self.schedule.append([order, workers])
             fail_at = None
             if self.fail_next and n > 0:
                 fail_at = order[self.sched.choice(n)]
@@ -707,6 +709,7 @@ def _run(ctx, kind, fam, ctl):
     ctx.nontrivial = bool(ctl.nontrivial or updated)
     ctx.state = (kind, tuple(map(tuple, case.desc['degs_ncells'])), case.desc['knots'], case.desc['geo'])
     ctx.sim_time = float(ctl.calls)
+    ctx.interleaving = ctl.schedule
 
 
 def main_check(prop, tier, seed, cfg, args):
